@@ -1,9 +1,9 @@
 package main
 
 import (
-	"sort"
 	"fmt"
 	"os"
+	"sort"
 	"strings"
 )
 
@@ -55,6 +55,5 @@ func doDump(p *Program, what string) {
 		}
 	}
 }
-
 
 func sortStrings(s []string) { sort.Strings(s) }
